@@ -227,6 +227,11 @@ func sameOutcome(q *h.Query, a, b qOutcome) string {
 		if len(q.OrderBy) == 0 {
 			return ""
 		}
+		if orderKeyNaN(q, a.res) || orderKeyNaN(q, b.res) {
+			// NaN in an ORDER BY key (LN/LOG of a non-positive value): the comparator
+			// is not an order, so which rows end up in the slice depends on arrival order
+			return ""
+		}
 		// ordered + limit: compare the values of the ORDER BY keys position-wise
 		for i := range a.res.Rows {
 			for _, k := range q.OrderBy {
